@@ -59,6 +59,9 @@ func TestC06(t *testing.T) {
 			if multi(vc.Typ) {
 				st.Class("container:multi-valued")
 			}
+			if c.ShareDefaults {
+				st.Class("container:shares-default-slice-with-twin")
+			}
 			if e.f9 {
 				st.Class("container:f9-class")
 			}
